@@ -1,5 +1,5 @@
 //! Phase-output half of C12: every fault position of the file-system calls a real detect/build
-//! process makes beneath its world, × errno ∈ {EIO, EACCES, ENOSPC}. The phase must exit
+//! process makes beneath its world, × errno ∈ {EIO, EACCES, ENOSPC, ENOTDIR}. The phase must exit
 //! non-zero or leave exactly the outputs of the fault-free run.
 
 use super::c05::{self, DescKind, InputKind, Scenario};
